@@ -13,6 +13,7 @@ func init() {
 	register(&Prop{ID: "C02", Run: runC02,
 		Technique: "static analysis: enum decision table from edge-dominance conditions (go/ssa), must-pass-through on the worker's error paths",
 		Decided: []string{
+			"no executor sets exec.Cmd.WaitDelay: a command step's outcome is its command's exit status (C02.exit-status-is-outcome)",
 			"isReady marks only the dependent (never the dependency) and only in the cells {failed & !continueOn.failure}→canceled, {skipped & !continueOn.skipped}→skipped, {canceled}→canceled (C02.mark-table)",
 			"isReady's readiness verdict follows the licensed cells (C01.ready-table, shared)",
 			"a step whose own precondition fails is marked skipped and cannot reach the launch in that pass (C02.precond-skip)",
@@ -45,6 +46,7 @@ func runC02(e *Env) {
 	c01SingleLaunch(e, s)
 	cRunToCompletion(e, s, "C02.run-to-completion")
 	cExecErrorReported(e, s, "C02.exec-error-reported")
+	c02NoWaitDelay(e)
 }
 
 func c02MarkTable(e *Env, s *Sched) {
